@@ -332,7 +332,7 @@ pub fn exec(plan: &Plan, _trials: &mut Trials) -> RunReport {
                 }
             }
         }
-        Caught::Panic(p) => rep.viols.push(Viol { property: focus.to_string(), class: format!("panic:{}", normalise(&p)), detail: p, trial: 0 }),
+        Caught::Panic(p) => rep.viols.push(Viol { property: focus.to_string(), class: panic_class(&p), detail: p, trial: 0 }),
         Caught::Budget => {}
     }
     rep
